@@ -363,6 +363,33 @@ def user_class_scenario():
             if got != ref:
                 problems.append('user classes %s, model %r: extends-references %s, with generic classes %s'
                                 % ([c.__name__ for c in classes], text, got, ref))
+
+        # ... and user classes with __slots__ (documented as supported): the same references, and look-ups in
+        # the finished model (objects without __dict__) through the provider
+        class SlotPackage:
+            __slots__ = ('parent', 'name', 'classes', 'packages')
+
+            def __init__(self, parent=None, name=None, classes=None, packages=None):
+                self.parent, self.name, self.classes, self.packages = parent, name, classes, packages
+        SlotPackage.__name__ = 'Package'
+        mm = metamodel_from_str(GRAMMAR, classes=[SlotPackage])
+        mm.register_scope_providers({'*.*': P.FQN()})
+        try:
+            m = mm.model_from_str(text)
+            got = bases(m)
+            from textx.model import ObjCrossRef
+            for o in named_objects(m):
+                if type(o).__name__ != 'Class' or getattr(o, 'base', None) is None:
+                    continue
+                cref = ObjCrossRef(path(o.base), mm['Class']._tx_attrs['base'].cls, 0, None, 'FQN')
+                again = P.FQN()(o, type(o)._tx_attrs['base'], cref)
+                if again is not o.base:
+                    got = 'look-up of %r from %s in the finished model gives %r' % (path(o.base), path(o), again)
+        except Exception as e:  # noqa
+            got = '%s: %s' % (type(e).__name__, e)
+        if got != ref:
+            problems.append('__slots__ user class for Package, model %r: extends-references %s, with generic classes %s'
+                            % (text, got, ref))
     return problems
 
 
